@@ -328,7 +328,7 @@ func (c13) Run(e *Env) {
 		e.Overlap = true
 	}
 	resynced := false
-	nSteps := e.Range(3, 25)
+	nSteps := e.Range(3, 25*e.Depth())
 	for step := 0; step < nSteps; step++ {
 		e.Settle()
 		names := sortedPods()
